@@ -686,6 +686,15 @@ def run_tables(case, ctx):
         if wants[0] is not R.Undecodable:
             got = guarded(ctx, lambda: holder.metadata)
             ctx.check(R.deq(got, wants[0]), "toplevel_metadata", f"{holder_name}.metadata = {got!r} expected {wants[0]!r}")
+            # history: read, replace the schema while the stored bytes stay, read again -> decoded by the NEW schema
+            holder.metadata_schema = tskit.MetadataSchema(None)
+            raw = holder.metadata
+            ctx.check(raw == refs[0], "toplevel_metadata_history",
+                      f"{holder_name}.metadata after switching to the null schema = {raw!r} expected the raw bytes {refs[0]!r}")
+            holder.metadata_schema = ms
+            again = guarded(ctx, lambda: holder.metadata)
+            ctx.check(R.deq(again, wants[0]), "toplevel_metadata_history",
+                      f"{holder_name}.metadata after switching the schema back = {again!r} expected {wants[0]!r}")
         for kind, b in bad[:1]:
             try:
                 holder.metadata = copy.deepcopy(b)
